@@ -38,6 +38,11 @@ func (e *kvElection) heartbeatLoop(ctx context.Context, termToken string) {
 				healthCtx, cancel := context.WithTimeout(ctx, 100*time.Millisecond)
 				healthy := e.cfg.HealthChecker.Check(healthCtx)
 				cancel()
+				// The check may have blocked across the end of this term (and the start
+				// of the next): its result then counts for nobody.
+				if !e.IsLeader() || e.Token() != termToken {
+					return
+				}
 				if !healthy {
 					failureCount := e.healthFailureCount.Add(1)
 					log := e.getLogger()
